@@ -90,7 +90,7 @@ type Case struct {
 	StallMs    int  `json:"stall_ms,omitempty"`    // how long the consumer does not read
 	Buf        int  `json:"buf,omitempty"`         // capacity of the log channel (relay file uses 10)
 	PauseAfter int  `json:"pause_after,omitempty"` // the consumer pauses after this many lines
-	Cancel     bool `json:"cancel,omitempty"`      // the context is cancelled during the pause (oracle only)
+	Cancel     bool `json:"cancel,omitempty"`      // the context is cancelled during the pause
 	// observed on the real code
 	Obs    *Item    `json:"obs,omitempty"`
 	ObsL   []Item   `json:"obs_items,omitempty"`
@@ -443,8 +443,8 @@ func runFilterLines(c *Case, direct []string) []string {
 // filter commands.  Nothing here depends on how long anything takes: the feeder simply blocks
 // while FilterLines blocks, and the history is complete when the closing no-op action has been
 // taken (everything before it has then been handled, its line handed to the channel).  With
-// Cancel the context is cancelled during the pause; what arrives is then judged by the oracle
-// alone (a prefix of the permitted lines), no Coq case is made of it.
+// Cancel the context is cancelled during the pause; what arrives must then be a prefix of the
+// permitted lines (oracle, and the model: Corr CCancelled / C20_delivered_is_prefix).
 func runFilterStalled(c *Case) (direct []string) {
 	direct = filterPrelude(c)
 	stall := time.Duration(c.StallMs) * time.Millisecond
@@ -681,6 +681,12 @@ func (c *Case) coq() string {
 			evs = append(evs, "(Act Unknown)")
 		}
 	}
+	if c.Stalled && c.Cancel {
+		return lib.App("CCancelled", lib.List(mt), lib.List(evs), strList(c.Out))
+	}
+	if c.Stalled {
+		return lib.App("CStalled", lib.List(mt), lib.Nat(c.Buf), lib.Nat(c.PauseAfter), lib.List(evs), strList(c.Out))
+	}
 	return lib.App("CFilter", lib.List(mt), lib.List(evs), strList(c.Out))
 }
 
@@ -789,7 +795,6 @@ func main() {
 				direct = runFilterStalled(c) // a replay
 				if c.Cancel {
 					oracleCancelled(c, direct, i, res)
-					c.Evs, c.Out, c.Match = nil, []string{}, nil // judged by the oracle alone
 				} else {
 					oracleFilter(c, direct, i, res)
 				}
@@ -818,13 +823,11 @@ func main() {
 		res.Count(fmt.Sprintf("filter-stalled:consumer-paused-%dms-buffer-%d", c.StallMs, c.Buf))
 		res.CountN("filter-stalled:lines-logged", len(c.Out))
 		if c.Cancel {
-			res.Count("filter-stalled:context-cancelled-during-the-pause(oracle only)")
+			res.Count("filter-stalled:context-cancelled-during-the-pause")
 			oracleCancelled(c, stalledDirect[k], i, res)
-			kept := *c
-			res.Cases = append(res.Cases, kept)
-			c.Evs, c.Out, c.Match = nil, []string{}, nil
 			cases = append(cases, *c)
 			coq = append(coq, c.coq())
+			res.Cases = append(res.Cases, *c)
 			continue
 		}
 		oracleFilter(c, stalledDirect[k], i, res)
